@@ -54,13 +54,16 @@ class Finding:
 
 def known_match(entry, f: Finding):
     m = entry.get("match", {})
-    if entry.get("property") != f.prop:
+    if f.prop not in ([entry.get("property")] + list(entry.get("also_under", []))):
         return False
     for field, val in (("contract", f.contract), ("what", f.what), ("instance", f.instance)):
         pat = m.get(field)
         if pat and not re.search(pat, val or ""):
             return False
     return True
+
+
+SITE_DRIVEN = re.compile(r"/(frame\.|callee-pre\[|dask\.from_delayed\.|np\.searchsorted\.|ghost\.)")
 
 
 def replay_refuted(interp, contract, inst, model, pb, rng, tries):
@@ -120,8 +123,10 @@ def run_property(prop, tier, seed, root):
     functions = sorted({j["contract"] for j in jobs})
     samples = []
     names_now = set()
+    generated_kinds = set()
     rng = random.Random(seed)
     for j in jobs:
+        generated_kinds |= set(j.get("generated_kinds", ()))
         gen_time += j["gen_s"]
         solver_time += j["solve_s"]
         assumptions |= set(j["assumptions"])
@@ -244,8 +249,15 @@ def run_property(prop, tier, seed, root):
     vanished = []
     kinds_now = {re.sub(r"\{.*\}$", "", n) for n in names_now}
     if baseline is not None and tier in baseline.get("tiers", ["quick", "thorough"]):
-        # vacuity guard: every kind of obligation discharged on the unchanged tree must still be generated
-        vanished = sorted(set(baseline["names"]) - kinds_now)
+        # vacuity guard: every *contract-driven* kind of obligation discharged on the unchanged tree must still
+        # be generated (result components, prescribed errors, theorems, lemmas, loop cuts, laziness).  Kinds
+        # that exist only because the code contains a particular statement (a frame obligation per in-place
+        # write / attribute store, a callee precondition per call site, ...) come and go with harmless
+        # refactors and are not part of the guard; for a property that keeps only frame obligations (C14) the
+        # guard looks at the contract-driven kinds generated before that filter, i.e. it demands that every
+        # function was still executed to its end against its spec.
+        have = kinds_now | (generated_kinds if cfg.get("obligation_filter") else set())
+        vanished = sorted(n for n in set(baseline.get("guard", baseline["names"])) - have if not SITE_DRIVEN.search(n))
     # ---- known findings
     known = load_json(os.path.join(HERE, "known_findings.json"), {"findings": []})["findings"]
     violations, known_hits = [], []
@@ -330,6 +342,7 @@ def run_property(prop, tier, seed, root):
     print(f"{prop} [{tier}] functions={len(functions)} obligations={counts['obligations']} discharged={counts['discharged']} "
           f"refuted={counts['refuted']} undecided={counts['undecided']} bounded={bounded['evaluations']}/{bounded['mismatches']} bad "
           f"known={len(known_hits)} violations={len(violations)} wall={wall:.1f}s exit={status}")
+    counts["_guard"] = {n for n in (kinds_now | (generated_kinds if cfg.get("obligation_filter") else set())) if not SITE_DRIVEN.search(n)}
     return status, kinds_now, counts
 
 
@@ -346,6 +359,7 @@ def main():
         return replay_file(a.replay, root)
     try:
         status, names, counts = run_property(a.prop, a.tier, seed, root)
+        guard = counts.pop("_guard", None) if isinstance(counts, dict) else None
     except Exception:
         traceback.print_exc()
         print("CHECKER-ERROR: traceback above")
@@ -357,6 +371,8 @@ def main():
         b[a.prop] = {"names": sorted(set(names) | prev) if a.tier == "quick" else sorted(names), "count": len(names), "tiers": ["quick"] if a.tier == "quick" else ["quick", "thorough"]}
         b[a.prop]["names"] = sorted(names)
         b[a.prop]["tiers"] = [a.tier]
+        if guard:
+            b[a.prop]["guard"] = sorted(guard)
         with open(path, "w") as fh:
             json.dump(b, fh, indent=0, sort_keys=True)
         print(f"baseline for {a.prop}: {len(names)} obligations")
